@@ -48,6 +48,7 @@ const (
 	vDelta    = 6 * time.Millisecond  // provoked failure -> first control call
 	vGrace    = 100 * time.Millisecond // after Stop: no dial may start within this time
 	vDeadline = 3 * time.Second       // any single expected observable
+	vSlowSDK  = 30 * time.Millisecond // duration of UpdateDeviceOperatingState(Up) in the slow-SDK scripts
 )
 
 func vgoid() uint64 {
@@ -178,7 +179,7 @@ func (w *vworld) cleanup() {
 
 var vworldSeq uint32
 
-func newWorld() *vworld {
+func newWorld(slow bool) *vworld {
 	n := atomic.AddUint32(&vworldSeq, 1)
 	pid := uint32(os.Getpid())
 	ip := fmt.Sprintf("127.%d.%d.%d", 16+(pid%200), (n/250)%250, 1+n%250)
@@ -196,6 +197,10 @@ func newWorld() *vworld {
 			switch args.Get(1).(contract.OperatingState) {
 			case contract.Up:
 				r = "U"
+				if slow {
+					// the report is received now and acknowledged later (an HTTP round trip in production)
+					defer time.Sleep(vSlowSDK)
+				}
 			case contract.Down:
 				r = "D"
 			}
@@ -238,10 +243,15 @@ type vscript struct {
 	up     int
 	toks   []string
 	silent bool // handshakeFail is played as accept-then-silent (60 s read timeout); thorough only
+	slow   bool // the SDK takes vSlowSDK to process an Up report (two connection events can then overlap)
 }
 
 func (s vscript) request() string {
-	return fmt.Sprintf("supervisor %d %s", s.up, strings.Join(s.toks, " "))
+	verb := "supervisor"
+	if s.slow {
+		verb = "supervisor-slowsdk"
+	}
+	return fmt.Sprintf("%s %d %s", verb, s.up, strings.Join(s.toks, " "))
 }
 
 func vobs(dials []int, reports []string, done bool, next int) string {
@@ -265,7 +275,7 @@ func runScript(s vscript, variant uint64) (obs string) {
 			obs = fmt.Sprintf("panic:%v", r)
 		}
 	}()
-	w := newWorld()
+	w := newWorld(s.slow)
 	defer w.cleanup()
 	st := contract.OperatingState(contract.Down)
 	if s.up != 0 {
@@ -310,6 +320,10 @@ loop:
 				cancel()
 				stopped = true
 				c1 = time.Now()
+				if !c1.Before(lastFail.Add(vW)) {
+					// Stop did not return before the retry wait could have ended
+					return "inconclusive:control-placement"
+				}
 				break loop
 			}
 			ctx, cancel := context.WithTimeout(context.Background(), 3*time.Millisecond)
@@ -603,11 +617,23 @@ func TestVerifC15(t *testing.T) {
 		// accept-then-silent: the 60 s read timeout counts as a failed attempt
 		scripts = append(scripts, vscript{up: 1, toks: []string{"hf", "df"}, silent: true}, vscript{up: 1, toks: []string{"df", "hf", "dr"}, silent: true})
 	}
+	// an SDK that takes a while to acknowledge a report: the first connection at a new address is cut short (UpdateAddr
+	// closed the idle client) and the next one follows at once, so two connection-success events overlap
+	for _, t := range [][]string{
+		{"df", "ua:1", "dr", "dr"}, {"df", "ua:1", "dr", "cl"}, {"hf", "ua:1", "df", "dr", "dr", "df"},
+		{"df", "df", "ua:1", "dr", "cl", "dr"}, {"dr", "dr"}, {"df", "dr", "cl"},
+	} {
+		scripts = append(scripts, vscript{up: 0, toks: t, slow: true}, vscript{up: 1, toks: t, slow: true})
+	}
 	if only := os.Getenv("VERIF_C15_ONLY"); only != "" {
-		// replay: one script, e.g. "1 df st"
+		// replay: one script, e.g. "1 df st" or "slow 0 df ua:1 dr dr"
 		f := strings.Fields(only)
+		slow := f[0] == "slow"
+		if slow {
+			f = f[1:]
+		}
 		up, _ := strconv.Atoi(f[0])
-		scripts = []vscript{{up: up, toks: f[1:]}}
+		scripts = []vscript{{up: up, toks: f[1:], slow: slow}}
 	}
 
 	results := make([]string, len(scripts))
